@@ -44,14 +44,18 @@ Theorem C14_overrides_modelled :
 Proof. exact (conj overrides_modelled overrides_required). Qed.
 
 (* syntactic shape of EVERY definition of to / type / clone / detach / cpu / cuda / double / float / half in the package
-   (the generic ones of LinearOperator and every override, regenerated per run): none can return `self` or a local
-   alias of it, none leaves early under a test of self.dtype / self.device (the dtype property is only the dtype of the
-   first argument), none assigns an attribute of `self` - without exception since TransposePermutation.type was repaired
-   (documented_shapes = []); and the generic methods are in the table.  A new early return / in-place shortcut breaks
-   this proof. *)
+   (the generic ones of LinearOperator and every override, regenerated per run).  Four flags per definition: it can
+   return `self` (or a local alias of it); it leaves early under a test of self.dtype / self.device (the dtype property is
+   only the dtype of the first argument); it assigns an attribute of `self`; it can put a component of self (an element
+   of self._args / self._kwargs, the parameter of a helper applied to them, `*self._args`) into the result UNCHANGED for
+   another reason than that the component lacks the method (hasattr tests only ask whether it can be copied at all; a
+   test of requires_grad / dtype / device decides on the data and makes the "copy" share objects with its source).
+   All four are false everywhere, except the two documented rows of the fourth kind (LinearOperator.type, whose helper
+   is applied to a clone; CatLinearOperator.to, documented not to move the pieces); and the generic methods are in the
+   table.  A new early return, in-place shortcut or object-reusing "fast path" breaks this proof. *)
 Theorem C14_copy_methods_shape_documented :
-  (forall o m s, In (o, m, s) method_shapes -> s = (false, false, false) \/ In (o, m, s) documented_shapes) /\
-  (forall m, In m base_methods -> In ("LinearOperator"%string, m, (false, false, false)) method_shapes).
+  (forall o m s, In (o, m, s) method_shapes -> s = plain \/ In (o, m, s) documented_shapes) /\
+  (forall m, In m base_methods -> In ("LinearOperator"%string, m, base_shape m) method_shapes).
 Proof. exact (conj method_shapes_documented base_methods_plain). Qed.
 
 (* ---------------------------------------------------------------- constructors on stored arguments *)
